@@ -413,6 +413,8 @@ def work(unit):
     """unit: {"kernels": [(prog_json, {name: fmtstr})...], "opts": {...}, "tag": str}"""
     t0 = time.time()
     opts = unit["opts"]
+    if "capacity" in unit:
+        os.environ["TENSORA_VERIF_INITIAL_CAPACITY"] = unit["capacity"]
     stats = Counter()
     findings = []
     samples = []
